@@ -143,6 +143,7 @@ type interpreter struct {
 	shadows   []shadowRec // verifShadow registrations, per path
 	syncMaps map[*value]*[]smEntry // sync.Map model state, per path
 	fbitsMemo map[int]*smt.Term // float term -> its bit-vector variable, per path
+	orderBudget0 int // budget at the time order-free mode was switched on
 	orderBudget int // iterations that may still leave insertion order (deviation bounding)
 	capNondet bool
 	inPlaceAppends int
@@ -682,6 +683,13 @@ func (i *interpreter) runPath(it workItem) (newItems []workItem) {
 		// decisions discovered before the assume still lead to feasible siblings
 	case "incomplete":
 		res.incompleteN[trimReason(incomplete)]++
+		if os.Getenv("SYMGO_DEBUG_INCOMPLETE") != "" {
+			var vals []uint64
+			for _, n := range i.nondets {
+				vals = append(vals, n.Val)
+			}
+			fmt.Fprintf(os.Stderr, "INCOMPLETE-PATH %s: %s nondet=%v\n", ex.fn.Name(), trimReason(incomplete), vals)
+		}
 		res.Paths++
 	default:
 		res.Paths++
